@@ -41,7 +41,7 @@ type shape struct {
 }
 
 // routes exercised for every shape
-var routes = []string{"stored-type", "replay-eventtype", "subscribe-with-replay", "subscribe-with-replay-live", "upcast-source", "upcast-target", "eventtype-rule", "after-upcast-replay-and-clear", "forwarded-from-a-traced-bus", "upcast-chain-middle", "upcast-chain-middle-after-an-undecodable-document"}
+var routes = []string{"stored-type", "replay-eventtype", "subscribe-with-replay", "subscribe-with-replay-live", "upcast-source", "upcast-target", "eventtype-rule", "after-upcast-replay-and-clear", "forwarded-from-a-traced-bus", "upcast-chain-middle", "upcast-chain-middle-after-an-undecodable-document", "upcast-source-after-clearing-its-type", "upcast-chain-after-clearing-the-middle-twice"}
 
 var bg = context.Background()
 
@@ -265,6 +265,50 @@ func mk[T any](name string, sample T, n func(T) int, setN func(int) T) shape {
 			eventbus.SubscribeWithReplay(bg, bus2, "chain-end", func(e Target) { got = append(got, e.N) })
 			if fmt.Sprint(got) != fmt.Sprint(wantNums) {
 				bad("typed chain Old->T->Target over a log holding all three: SubscribeWithReplay[Target] received %v, want %v", got, wantNums)
+			}
+		case "upcast-source-after-clearing-its-type":
+			// ClearUpcastsForType for names that have no upcasters (on a fresh bus, twice, for
+			// the source and for the target) is a no-op: an upcaster registered for T afterwards
+			// is matched by the stored T event like any other.
+			bus2 := eventbus.New(eventbus.WithStore(ms))
+			bus2.ClearUpcastsForType(want)
+			bus2.ClearUpcastsForType(want)
+			bus2.ClearUpcastsForType(eventbus.EventType(Target{}))
+			if err := eventbus.RegisterUpcast(bus2, func(e T) Target { return Target{N: n(e) + 100} }); err != nil {
+				bad("RegisterUpcast[T,Target] rejected after ClearUpcastsForType on a fresh bus: %v", err)
+				return
+			}
+			var got []int
+			eventbus.SubscribeWithReplay(bg, bus2, "t", func(e Target) { got = append(got, e.N) })
+			if len(got) != 1 || got[0] != 101 {
+				bad("after ClearUpcastsForType of names that had no upcasters, the upcaster registered with RegisterUpcast[T,Target] is not applied to the stored T event: SubscribeWithReplay[Target] received %v, want [101]", got)
+			}
+		case "upcast-chain-after-clearing-the-middle-twice":
+			// Old -> T -> Target registered, then T's upcasters cleared - twice: what is left is
+			// Old -> T, and a stored Old event is matched by it (and reported under T's name).
+			ms2 := eventbus.NewMemoryStore()
+			bus1 := eventbus.New(eventbus.WithStore(ms2))
+			eventbus.Publish(bus1, Old{N: 5})
+			bus2 := eventbus.New(eventbus.WithStore(ms2))
+			if err := eventbus.RegisterUpcast(bus2, func(o Old) T { return setN(o.N + 10) }); err != nil {
+				bad("RegisterUpcast[Old,T] rejected: %v", err)
+				return
+			}
+			if err := eventbus.RegisterUpcast(bus2, func(e T) Target { return Target{N: n(e) + 100} }); err != nil {
+				bad("RegisterUpcast[T,Target] rejected: %v", err)
+				return
+			}
+			bus2.ClearUpcastsForType(want)
+			bus2.ClearUpcastsForType(want)
+			var types []string
+			bus2.ReplayWithUpcast(bg, eventbus.OffsetOldest, func(se *eventbus.StoredEvent) error { types = append(types, se.Type); return nil })
+			if len(types) != 1 || types[0] != want {
+				bad("after clearing T's upcasters twice, the stored Old event is reported as %v; the Old->T upcaster is still registered, so want it under T's name %q", types, want)
+			}
+			var got []int
+			eventbus.SubscribeWithReplay(bg, bus2, "t", func(e T) { got = append(got, n(e)) })
+			if len(got) != 1 || got[0] != 15 {
+				bad("after clearing T's upcasters twice, SubscribeWithReplay[T] received %v, want [15] (the Old event upcast by Old->T)", got)
 			}
 		case "upcast-target":
 			// T is the target: an Old event upcast to T must be matched as T everywhere.
@@ -505,7 +549,7 @@ func replay(c *h.Check, rf *h.ReplayFile) []vrt.Violation {
 
 func main() {
 	h.Main("C15", "exploration", []string{
-		"the space is finite and enumerated completely: 13 type shapes x 11 routes",
+		"the space is finite and enumerated completely: 13 type shapes x 13 routes",
 	}, run, replay, func(string) map[string]any {
 		return map[string]any{"rule": "complete cross product of event type shapes (plain / pointer / custom name on value receiver by value and by pointer / custom name on pointer receiver / state messages by value and pointer) and name-deriving APIs (persisted type, Replay+EventType, SubscribeWithReplay replay and live phase, RegisterUpcast source and target); every cell is distinct and non-trivial"}
 	})
